@@ -366,15 +366,27 @@ func runC08(c *CaseCtx) (res CaseResult) {
 		return m
 	}
 	reps := tierReps(c.Tier, 2, 4)
+	origIn, origOut := rc.InAllowed, rc.OutAllow
+	resetFilters := c.Idx%7 == 3 && (origIn != nil || origOut != nil)
+	if resetFilters {
+		res.obs("cases_with_filters_reset_by_nil", 1)
+	}
 	for k := 0; k < reps; k++ {
 		call := k
 		if r.Intn(4) == 0 && touchInputSet(in.W, in.Target.Func, 40+k, r) {
 			// an unrelated use wrote values into the target's own input value set
 			res.obs("redefines_after_writing_the_input_value_set", 1)
 		}
+		rc.InAllowed, rc.OutAllow = origIn, origOut
 		ropts := rc.opts(in, call, r)
 		if filtersAsDefaults {
 			ropts = in.AllArgs(call, r)
+		}
+		if resetFilters {
+			// a nil filter given later takes the earlier one (option or
+			// default) out of force: everything is permitted again
+			ropts = append(ropts, am.FilterInput(nil), am.FilterOutput(nil))
+			rc.InAllowed, rc.OutAllow = nil, nil
 		}
 		o := DoRedefine(in.W, in.Target.Func, ropts)
 		res.Evals++
